@@ -40,7 +40,7 @@ Judge ==
     /\ (op = "ViewLs" => (KeysOf(Ev.lazy) = RefViewLs(A(1), A(2)) \/ Say("VERDICT", "ViewLsNotExact")))
     /\ (op = "FsCat" => (Ev.content_ok \/ Say("VERDICT", "AdaptorBytesDifferFromStorage")))
     /\ (op \in {"Ls", "FsLs"} => (KeysOf(Ev.lazy) = RefLs(A(1)) \/ Say("VERDICT", "ListingWrong:" \o op)))
-    /\ (op = "Iter" /\ ~A(2) => (KeysOf(Ev.lazy) = RefIter(A(1)) \/ Say("VERDICT", "IterationWrong")))
+    /\ (op = "Iter" => (KeysOf(Ev.lazy) = (IF A(2) THEN RefIterShallow(A(1)) ELSE RefIter(A(1))) \/ Say("VERDICT", "IterationWrong")))
     /\ (loaded \subseteq ToSet(Ev.loaded) \/ Say("VERDICT", "LoadedShrank"))
 TraceNext == (Match \/ Fail) /\ Judge
 TraceSpec == TraceInit /\ [][TraceNext]_allvars
